@@ -22,6 +22,29 @@ def scen(name, prop, flavour, table, extra=(), shards=None):
     return j
 
 
+def miri(name, bin_, args, shards=16, timeout=1500):
+    return dict(name=name, bin=bin_, flavour="miri", args=list(args), shards=shards, timeout=timeout)
+
+
+def miri_scen(prop, table, tier, sample=40, mult=16):
+    # Miri interprets ~10^3-10^4 x slower: every seed explores a different 1/mult slice of the table,
+    # sampled; the tracking allocator is off (Miri is the allocator oracle there)
+    extra = ["--groupshard"] if table == "c06" else []
+    sample = {"c06": 60, "c03": 40, "c04": 8, "c07": 12}.get(table, sample)
+    if tier == T:
+        sample, mult = max(1, sample // 4), max(1, mult // 4)
+    return miri(f"{table}-sample", "gcmon", ["scen", "--prop", prop, "--table", table, "--sample", sample, "--shardmult", mult, "--notrack"] + extra)
+
+
+def miri_rnd(prop, tier, profile="general", extra=(), arenas=1):
+    n = 32 if tier == Q else 256
+    return miri("random-small", "gcmon", ["random", "--prop", prop, "--count", n, "--len", 24, "--profile", profile, "--pacing-cycle", "--arenas", arenas, "--notrack"] + list(extra))
+
+
+def vg(name, args, shards=8):
+    return dict(name=name, bin="gcmon", flavour="vg", args=list(args), shards=shards, timeout=3000)
+
+
 def size(tier, q, t):
     return q if tier == Q else t
 
@@ -36,10 +59,11 @@ def jobs_c01(tier, seed):
         rnd("random", "C01", "asan", n // 8),
         scen("barrier-matrix", "C01", "dbg", "c06"),
         scen("barrier-matrix", "C01", "rel", "c06"),
-    ]
+        miri_rnd("C01", tier),
+    ] + ([miri_scen("C01", "c06", tier), vg("random-vg", ["random", "--prop", "C01", "--count", 2000, "--pacing-cycle"])] if tier == T else [])
 
 
-def jobs_simple(prop, profile="general", matrix=None):
+def jobs_simple(prop, profile="general", matrix=None, miri_tables=None):
     def f(tier, seed):
         n = size(tier, 120_000, 1_200_000)
         js = [
@@ -53,6 +77,13 @@ def jobs_simple(prop, profile="general", matrix=None):
             js.append(scen(m, prop, "dbg", m))
             js.append(scen(m, prop, "rel", m))
             js.append(scen(m, prop, "asan", m))
+        for m in miri_tables or []:
+            if m == "c03" and tier == Q:
+                continue  # ~17 s per scenario under Miri: thorough only
+            js.append(miri_scen(prop, m, tier))
+        if tier == T:
+            js.append(miri_rnd(prop, tier, profile=profile))
+            js.append(vg("random-vg", ["random", "--prop", prop, "--count", 1500, "--profile", profile, "--pacing-cycle"]))
         return js
 
     return f
@@ -80,7 +111,9 @@ def jobs_c11(tier, seed):
         rnd("random-faults", "C11", "dbg", n, extra=["--faults"]),
         rnd("random-faults", "C11", "rel", n, extra=["--faults"]),
         rnd("random-faults", "C11", "asan", n // 8, extra=["--faults"]),
-    ]
+        lay("builders", "C11", "dbg", "builders"),
+        lay("builders", "C11", "asan", "builders"),
+    ] + ([miri("fault-enum-small", "gcmon", ["faultenum", "--prop", "C11", "--count", 16, "--len", 16, "--maxpos", 3, "--notrack"])] if tier == T else [])
 
 
 def jobs_c20(tier, seed):
@@ -91,7 +124,7 @@ def jobs_c20(tier, seed):
         rnd("multi2", "C20", "rel", n, profile="multi", arenas=2),
         rnd("multi2", "C20", "asan", n // 8, profile="multi", arenas=2),
         rnd("multi2-roots", "C20", "dbg", n // 2, profile="roots", arenas=2),
-    ]
+    ] + ([miri_rnd("C20", tier, profile="multi", arenas=2)] if tier == T else [])
 
 
 def lay(name, prop, flavour, table, extra=(), shards=4):
@@ -102,7 +135,9 @@ def lay(name, prop, flavour, table, extra=(), shards=4):
 def jobs_lay(prop, table):
     def f(tier, seed):
         big = ["--big"] if tier == T else []
-        return [lay(table, prop, fl, table, big) for fl in ("dbg", "rel", "asan")]
+        js = [lay(table, prop, fl, table, big) for fl in ("dbg", "rel", "asan")]
+        js.append(miri(table + "-sample", "layoutmon", ["--prop", prop, "--table", table, "--shardmult", 4 if tier == Q else 1]))
+        return js
 
     return f
 
@@ -117,7 +152,8 @@ def trc(name, prop, flavour, table, features=None, shards=2):
 
 
 def jobs_c15(tier, seed):
-    return [trc("shapes", "C15", "dbg", "shapes"), trc("shapes", "C15", "rel", "shapes"), trc("shapes", "C15", "asan", "shapes")]
+    return [trc("shapes", "C15", "dbg", "shapes"), trc("shapes", "C15", "rel", "shapes"), trc("shapes", "C15", "asan", "shapes"),
+            miri("shapes-sample", "tracerec", ["--prop", "C15", "--table", "shapes", "--shardmult", 2 if tier == Q else 1])]
 
 
 def pregen_c15(tier, seed, generate):
@@ -125,7 +161,8 @@ def pregen_c15(tier, seed, generate):
 
 
 def jobs_c16(tier, seed):
-    js = [trc("impls", "C16", "dbg", "impls"), trc("impls", "C16", "rel", "impls"), trc("impls", "C16", "asan", "impls")]
+    js = [trc("impls", "C16", "dbg", "impls"), trc("impls", "C16", "rel", "impls"), trc("impls", "C16", "asan", "impls"),
+          miri("impls-sample", "tracerec", ["--prop", "C16", "--table", "impls", "--shardmult", 2 if tier == Q else 1])]
     keys = ["none", "nostd"] if tier == Q else [f"c{b}{s}" for b in range(32) for s in "sn"]
     for k in keys:
         js.append(trc("impls", "C16", "dbg", "impls", features=k, shards=1))
@@ -170,21 +207,21 @@ CHECKS = {
     ),
     "C03": dict(
         level="exploration",
-        jobs=jobs_simple("C03"),
+        jobs=jobs_simple("C03", matrix=["c03"], miri_tables=["c03"]),
         rule="every callback of every history brackets the destructor/allocator logs and re-validates all pointers obtained during it at its end; non-trivial = allocations made while not Sleeping and registers validated",
         floors={"register_validations": 100_000},
         assumptions=COMMON_ASSUME,
     ),
     "C04": dict(
         level="fault_enumeration",
-        jobs=jobs_simple("C04"),
+        jobs=jobs_simple("C04", matrix=["c04"], miri_tables=["c04"]),
         rule="histories ending in arena drop at every phase; per object: token count == 1, block released once with the requested layout, count reads 0 after drop; non-trivial = something was released before the drop and the arena was dropped",
         floors={"free_events": 10_000},
         assumptions=COMMON_ASSUME,
     ),
     "C05": dict(
         level="exploration",
-        jobs=jobs_simple("C05", profile="weak", matrix=["c06"]),
+        jobs=jobs_simple("C05", profile="weak", matrix=["c06"], miri_tables=["c06"]),
         rule="weak-heavy random histories + weak rows of the barrier matrix; every upgrade/is_dropped judged against destructor log, reachability and phase; non-trivial = upgrades performed and something released",
         floors={"is_dropped_checks": 50_000, "upgrade_.*": 10_000},
         assumptions=COMMON_ASSUME,
@@ -197,6 +234,7 @@ CHECKS = {
             scen("barrier-matrix", "C06", "asan", "c06"),
             rnd("random", "C06", "dbg", size(tier, 80_000, 800_000)),
             rnd("random", "C06", "rel", size(tier, 80_000, 800_000)),
+            miri_scen("C06", "c06", tier),
         ],
         rule="bounded-exhaustive scenario matrix: barrier path x child state x root layout x EVERY step count k of a whole cycle x drain mode; act, isolate, drain, two more full cycles; non-trivial = the hook snapshot classified a store made while not Sleeping; verdict by M-live / M-weak / M-panic",
         floors={"cells": 5_000},
@@ -204,14 +242,14 @@ CHECKS = {
     ),
     "C07": dict(
         level="exploration",
-        jobs=jobs_simple("C07", profile="final"),
+        jobs=jobs_simple("C07", profile="final", matrix=["c07"], miri_tables=["c07"]),
         rule="finalize-heavy random histories; is_dead / resurrect judged against shadow reachability; resurrected closure protected until the cycle ends; non-trivial = a finalize callback made is_dead queries or resurrected something",
         floors={"finalize_callbacks": 10_000},
         assumptions=COMMON_ASSUME,
     ),
     "C08": dict(
         level="exploration",
-        jobs=jobs_simple("C08"),
+        jobs=jobs_simple("C08", matrix=["c08"]),
         rule="per-method phase contract checked on every collection call and callback of every history; non-trivial = at least five contract checks in the history",
         floors={"phase_contract_checks": 100_000},
         assumptions=COMMON_ASSUME,
